@@ -21,6 +21,8 @@ type C03Case struct {
 	// Rewriting lists the indexes of requests that are served by an inner handler which rewrites in place
 	// the first value of every header slice it can reach; their own responses are not judged, the later ones are.
 	Rewriting []int `json:"rewriting,omitempty"`
+	// Via selects the history through which the middleware reaches the state (Cfg, Debug); see mkMWVia.
+	Via int `json:"via,omitempty"`
 }
 
 func (c C03Case) Brief() any {
@@ -41,6 +43,56 @@ func mkMW(c Cfg, debug bool) (*cors.Middleware, error) {
 	}
 	return m, nil
 }
+
+// mkMWVia builds a middleware in the state (c, debug) through one of several
+// histories that the documentation says are equivalent (C06, C08, C09):
+//
+//	0 NewMiddleware(c)                       3 NewMiddleware(other); SetDebug(!debug); Reconfigure(c)
+//	1 zero value; Reconfigure(c)             4 NewMiddleware(c); [SetDebug]; Reconfigure(Config())
+//	2 NewMiddleware(c); SetDebug(true);      5 NewMiddleware(c); a rejected Reconfigure
+//	  Reconfigure(nil); Reconfigure(c)
+//
+// followed by SetDebug(true) if debug is wanted. When debug is not wanted no
+// final SetDebug(false) is issued: the history itself must have left it off
+// (3 is the exception, it needs one).
+func mkMWVia(c Cfg, debug bool, via int) (*cors.Middleware, error) {
+	m, err := cors.NewMiddleware(c.Cors())
+	if err != nil {
+		return nil, err
+	}
+	cc := c.Cors()
+	switch via {
+	case 1:
+		m = new(cors.Middleware)
+		err = m.Reconfigure(&cc)
+	case 2:
+		m.SetDebug(true)
+		m.Reconfigure(nil)
+		err = m.Reconfigure(&cc)
+	case 3:
+		m, _ = cors.NewMiddleware(cors.Config{Origins: []string{"https://other.example"}, Methods: []string{"PURGE"}, RequestHeaders: []string{"X-Other"}, MaxAgeInSeconds: 3})
+		m.SetDebug(!debug)
+		err = m.Reconfigure(&cc)
+		m.SetDebug(debug)
+	case 4:
+		m.SetDebug(debug)
+		err = m.Reconfigure(m.Config())
+	case 5:
+		bad := cors.Config{Origins: []string{"https://example.com/"}, Methods: []string{"TRACE"}, MaxAgeInSeconds: -7}
+		if m.Reconfigure(&bad) == nil {
+			return nil, fmt.Errorf("an invalid configuration was accepted")
+		}
+	}
+	if err != nil {
+		return nil, err
+	}
+	if debug {
+		m.SetDebug(true)
+	}
+	return m, nil
+}
+
+const nVia = 6
 
 var safelistedResHdr = map[string]bool{"cache-control": true, "content-language": true, "content-length": true, "content-type": true,
 	"expires": true, "last-modified": true, "pragma": true}
@@ -244,6 +296,9 @@ func c03Gen(t *rapid.T) C03Case {
 		// claims about responses apply to it all the same
 		c.Cfg = genAtomCfg(t, mixOneViolation)
 	}
+	if chance(t, "via", 40) {
+		c.Via = uniform(t, "viakind", nVia)
+	}
 	p := poolsOf(c.Cfg)
 	n := intIn(t, "nreqs", 4, 24)
 	for i := 0; i < n; i++ {
@@ -264,7 +319,8 @@ func intStrs(xs []int) []string {
 }
 
 func c03Check(c C03Case, rec *Recorder) *Disc {
-	m, err := mkMW(c.Cfg, c.Debug)
+	m, err := mkMWVia(c.Cfg, c.Debug, c.Via)
+	rec.Class(fmt.Sprintf("via-%d", c.Via))
 	if err != nil {
 		rec.Class("rejected-config")
 		return nil
@@ -319,7 +375,7 @@ func c03Check(c C03Case, rec *Recorder) *Disc {
 
 func c03Prop() Prop[C03Case] {
 	return Prop[C03Case]{ID: "C03", Gen: c03Gen, Check: c03Check,
-		Rule: "generator: valid configuration (all switches, origin kinds incl. allow-all, method/header/response-header lists, max-age, status; 12% of cases instead a configuration with exactly one documented violation, which is judged only if the library accepts it) x debug x batch of 4-24 arbitrary requests " +
+		Rule: "generator: the middleware reaches its state through one of six histories documented as equivalent (NewMiddleware; zero value + Reconfigure; SetDebug(true), Reconfigure(nil), Reconfigure(c); Reconfigure from another configuration with the opposite debug mode; Reconfigure(Config()); after a rejected Reconfigure); valid configuration (all switches, origin kinds incl. allow-all, method/header/response-header lists, max-age, status; 12% of cases instead a configuration with exactly one documented violation, which is judged only if the library accepts it) x debug x batch of 4-24 arbitrary requests " +
 			"(any method; Origin/ACRM/ACRH/ACRPN absent, zero-valued, single, multi-valued; values from config-derived pools: allowed, near-miss, 34 malformations incl. upper case, userinfo, path/query/fragment, " +
 			"bracketed non-IP host, unmatched bracket, leading-zero/6-digit/zero/65536 port, NUL, non-ASCII, null, empty, 1KiB-1MiB values, junk bytes). evaluations = responses checked against the five invariants. " +
 			"non-trivial = request whose Origin is present and malformed, a near-miss or multi-valued, or a preflight under a credentialed configuration; distinct by (configuration, debug, request).",
